@@ -82,9 +82,10 @@ Fixpoint aset {A} (k : string) (v : A) (l : list (string * A)) : list (string * 
   end.
 
 (* ------------------------------------------------------------------ compiler definitions *)
-Inductive dest := DDefs | DPaths | DFiles | DModes | DPasses.
+(* DSys = namespace.system_include_paths: only the generic -isystem registration writes it *)
+Inductive dest := DDefs | DPaths | DFiles | DModes | DPasses | DSys.
 Definition dest_eqb (a b : dest) : bool :=
-  match a, b with DDefs, DDefs | DPaths, DPaths | DFiles, DFiles | DModes, DModes | DPasses, DPasses => true | _, _ => false end.
+  match a, b with DDefs, DDefs | DPaths, DPaths | DFiles, DFiles | DModes, DModes | DPasses, DPasses | DSys, DSys => true | _, _ => false end.
 
 (* string.Template with exactly one placeholder: pre ++ value ++ post *)
 Definition fmt := option (string * string).
@@ -96,11 +97,15 @@ Inductive action :=
 | AAppend                                                 (* "append" *)
 | AStoreSplit (sep : ascii) (f : fmt)                     (* _StoreSplitAction *)
 | AExtendMatch (pfx : list string) (f : fmt) (ov : bool)  (* _ExtendMatchAction, pattern (?:p1|p2|..)(\d+) *)
-| AIgnore1                                                (* -O, -o : "store", own destination *)
-| AIgnore0.                                               (* -g, -c : "store_const", own destination *)
+| AIgnore1                                                (* -o : "store", own destination *)
+| AIgnoreOpt                                              (* -O, -g, -c : "store" with nargs="?", own destination *)
+| AIgnore0.                                               (* (no longer registered by parse_args) *)
 
 Definition nargs0 (a : action) : bool :=
   match a with AAppendConst _ | AIgnore0 => true | _ => false end.
+(* nargs="?": pattern (A?) - the next argument is taken when it is an 'A', never required *)
+Definition nargs_opt (a : action) : bool :=
+  match a with AIgnoreOpt => true | _ => false end.
 
 Record rule := { r_flags : list string; r_act : action; r_dest : dest; r_default : option (list string) }.
 Record mode := { m_name : string; m_defs : list string; m_paths : list string; m_files : list string }.
@@ -208,8 +213,8 @@ Definition mk (fl : list string) (a : action) (d : dest) : rule :=
   {| r_flags := fl; r_act := a; r_dest := d; r_default := None |}.
 (* the options parse_args registers for every compiler, in order *)
 Definition generic_rules : list rule :=
-  [ mk ["-D"] AAppend DDefs; mk ["-I"; "-isystem"] AAppend DPaths; mk ["-include"] AAppend DFiles;
-    mk ["-O"] AIgnore1 DDefs; mk ["-o"] AIgnore1 DDefs; mk ["-g"] AIgnore0 DDefs; mk ["-c"] AIgnore0 DDefs ].
+  [ mk ["-D"] AAppend DDefs; mk ["-I"] AAppend DPaths; mk ["-isystem"] AAppend DSys; mk ["-include"] AAppend DFiles;
+    mk ["-O"] AIgnoreOpt DDefs; mk ["-o"] AIgnore1 DDefs; mk ["-g"] AIgnoreOpt DDefs; mk ["-c"] AIgnoreOpt DDefs ].
 
 Definition all_flags (rs : list rule) : list string := concat (map r_flags rs).
 
@@ -227,7 +232,7 @@ Inductive cls :=
 | CPos                                               (* 'A' *)
 | CDash                                              (* the literal -- *)
 | CUnk                                               (* 'O' without action: goes to the unrecognised list *)
-| CAmbig                                             (* parser.error -> SystemExit *)
+| CAmbig                                             (* parser.error -> ArgumentError (caught by parse_args) *)
 | COpt (r : rule) (ostr : string) (expl : option string).
 
 (* _get_option_tuples for a single-dash argument *)
@@ -268,25 +273,27 @@ Fixpoint classify_all (rs : list rule) (argv : list string) : list (string * cls
   end.
 
 (* ------------------------------------------------------------------ namespace and actions *)
-Record ns := { n_defs : list string; n_paths : list string; n_files : list string;
+Record ns := { n_defs : list string; n_paths : list string; n_sys : list string; n_files : list string;
                n_modes : list string; n_passes : list string;
                n_up : list (string * list string);   (* namespace._passes *)
                n_ov : list string }.                 (* extend_match actions whose override was used *)
 
 Definition get_dest (d : dest) (n : ns) : list string :=
-  match d with DDefs => n_defs n | DPaths => n_paths n | DFiles => n_files n | DModes => n_modes n | DPasses => n_passes n end.
+  match d with DDefs => n_defs n | DPaths => n_paths n | DSys => n_sys n | DFiles => n_files n | DModes => n_modes n | DPasses => n_passes n end.
 Definition set_dest (d : dest) (v : list string) (n : ns) : ns :=
-  match d with
-  | DDefs => {| n_defs := v; n_paths := n_paths n; n_files := n_files n; n_modes := n_modes n; n_passes := n_passes n; n_up := n_up n; n_ov := n_ov n |}
-  | DPaths => {| n_defs := n_defs n; n_paths := v; n_files := n_files n; n_modes := n_modes n; n_passes := n_passes n; n_up := n_up n; n_ov := n_ov n |}
-  | DFiles => {| n_defs := n_defs n; n_paths := n_paths n; n_files := v; n_modes := n_modes n; n_passes := n_passes n; n_up := n_up n; n_ov := n_ov n |}
-  | DModes => {| n_defs := n_defs n; n_paths := n_paths n; n_files := n_files n; n_modes := v; n_passes := n_passes n; n_up := n_up n; n_ov := n_ov n |}
-  | DPasses => {| n_defs := n_defs n; n_paths := n_paths n; n_files := n_files n; n_modes := n_modes n; n_passes := v; n_up := n_up n; n_ov := n_ov n |}
-  end.
+  {| n_defs := match d with DDefs => v | _ => n_defs n end;
+     n_paths := match d with DPaths => v | _ => n_paths n end;
+     n_sys := match d with DSys => v | _ => n_sys n end;
+     n_files := match d with DFiles => v | _ => n_files n end;
+     n_modes := match d with DModes => v | _ => n_modes n end;
+     n_passes := match d with DPasses => v | _ => n_passes n end;
+     n_up := n_up n; n_ov := n_ov n |}.
 Definition set_up (u : list (string * list string)) (n : ns) : ns :=
-  {| n_defs := n_defs n; n_paths := n_paths n; n_files := n_files n; n_modes := n_modes n; n_passes := n_passes n; n_up := u; n_ov := n_ov n |}.
+  {| n_defs := n_defs n; n_paths := n_paths n; n_sys := n_sys n; n_files := n_files n; n_modes := n_modes n; n_passes := n_passes n; n_up := u; n_ov := n_ov n |}.
 Definition add_ov (k : string) (n : ns) : ns :=
-  {| n_defs := n_defs n; n_paths := n_paths n; n_files := n_files n; n_modes := n_modes n; n_passes := n_passes n; n_up := n_up n; n_ov := k :: n_ov n |}.
+  {| n_defs := n_defs n; n_paths := n_paths n; n_sys := n_sys n; n_files := n_files n; n_modes := n_modes n; n_passes := n_passes n; n_up := n_up n; n_ov := k :: n_ov n |}.
+(* include_paths handed to every configuration: all -I values, then all -isystem values *)
+Definition base_paths (n : ns) : list string := n_paths n ++ n_sys n.
 
 Definition flag0 (r : rule) : string := match r_flags r with f :: _ => f | [] => "" end.
 Definition is_custom (a : action) : bool :=
@@ -328,7 +335,7 @@ Definition alts (pfx : list string) : list string := match pfx with [] => [""] |
 (* Action.__call__ ; [ostr] is the option string argparse passes *)
 Definition apply_rule (legacy : bool) (r : rule) (ostr : string) (v : string) (n : ns) : ns :=
   match r_act r with
-  | AIgnore0 | AIgnore1 => n
+  | AIgnore0 | AIgnore1 | AIgnoreOpt => n
   | AAppendConst c => set_dest (r_dest r) (get_dest (r_dest r) n ++ [c]) n
   | AAppend => set_dest (r_dest r) (get_dest (r_dest r) n ++ [v]) n
   | AStoreSplit sep f =>
@@ -350,7 +357,7 @@ Definition apply_rule (legacy : bool) (r : rule) (ostr : string) (v : string) (n
 (* consume_optional with an explicit argument: zero-argument single-dash options
    re-read the explicit argument as clustered short options.
    [e] is the rest of the explicit argument; "" means explicit_arg = None. *)
-Inductive err := EArgument | ESystemExit.
+Inductive err := EArgument.
 
 (* [nx] = Some v when the next argument exists and is an 'A'; the boolean of the
    result says whether it was consumed as the value of the option *)
@@ -361,7 +368,7 @@ Fixpoint cluster (legacy : bool) (rs : list rule) (r : rule) (ostr : string) (e 
       if nargs0 (r_act r) then inr (apply_rule legacy r ostr "" n, false)
       else match nx with
            | Some v => inr (apply_rule legacy r ostr v n, true)
-           | None => inl EArgument
+           | None => if nargs_opt (r_act r) then inr (apply_rule legacy r ostr "" n, false) else inl EArgument
            end
   | String c e' =>
       if nargs0 (r_act r) then
@@ -387,18 +394,21 @@ Definition next_pos (l : list (string * cls)) : option string :=
   match l with (v, CPos) :: _ => Some v | _ => None end.
 
 (* consume_optional / consume_positionals alternation: positionals, the literal --
-   and unknown options have no effect on the namespace *)
-Fixpoint loop (legacy : bool) (rs : list rule) (l : list (string * cls)) (n : ns) : err + ns :=
+   and unknown options have no effect on the namespace.  An ArgumentError is caught by
+   parse_args, which keeps the namespace as the actions taken SO FAR left it (the actions
+   of the failing argument are not taken; everything after it, including the implicit
+   options, is lost) and logs a warning: the boolean of the result. *)
+Fixpoint loop (legacy : bool) (rs : list rule) (l : list (string * cls)) (n : ns) : ns * bool :=
   match l with
-  | [] => inr n
+  | [] => (n, false)
   | (_, COpt ru ostr expl) :: r =>
       match consume legacy rs ru ostr expl (next_pos r) n with
-      | inl e => inl e
+      | inl _ => (n, true)
       | inr (n', used) =>
-          if used then match r with _ :: r' => loop legacy rs r' n' | [] => inr n' end
+          if used then match r with _ :: r' => loop legacy rs r' n' | [] => (n', false) end
           else loop legacy rs r n'
       end
-  | (_, CAmbig) :: _ => inl ESystemExit
+  | (_, CAmbig) :: _ => (n, true)
   | _ :: r => loop legacy rs r n
   end.
 
@@ -419,9 +429,9 @@ Definition undefined_modes (c : compiler) (ms : list string) : list string :=
   filter (fun m => match aget m (c_modes c) with Some _ => false | None => true end) ms.
 
 Definition config_of (c : compiler) (n : ns) (pn : string) : option config :=
-  let base := {| g_pass := pn; g_defs := n_defs n; g_paths := n_paths n; g_files := n_files n; g_blocks := [] |} in
+  let base := {| g_pass := pn; g_defs := n_defs n; g_paths := base_paths n; g_files := n_files n; g_blocks := [] |} in
   if String.eqb pn "default" then
-    Some {| g_pass := pn; g_defs := n_defs n; g_paths := n_paths n; g_files := n_files n;
+    Some {| g_pass := pn; g_defs := n_defs n; g_paths := base_paths n; g_files := n_files n;
             g_blocks := defined_modes c (dedup (n_modes n)) |}
   else match aget pn (c_passes c) with
        | None => None
@@ -448,20 +458,23 @@ Definition init_up (rs : list rule) : list (string * list string) :=
                         then match r_default r with Some d => aset (flag0 r) d u | None => u end
                         else u) rs [].
 Definition init_ns (c : compiler) : ns :=
-  {| n_defs := []; n_paths := []; n_files := []; n_modes := []; n_passes := []; n_up := init_up (c_rules c); n_ov := [] |}.
+  {| n_defs := []; n_paths := []; n_sys := []; n_files := []; n_modes := []; n_passes := []; n_up := init_up (c_rules c); n_ov := [] |}.
 
-Definition parse_ns (legacy : bool) (c : compiler) (argv : list string) : err + ns :=
+(* add_argument's "conflicting option string" is raised outside the try block: it still
+   propagates.  An ambiguous abbreviation is found while the arguments are classified,
+   before any action is taken: the namespace is still the initial one. *)
+Definition parse_ns (legacy : bool) (c : compiler) (argv : list string) : err + (ns * bool) :=
   let rs := generic_rules ++ c_rules c in
   if conflict [] rs then inl EArgument
   else
     let l := classify_all rs (argv ++ c_opts c) in
-    if existsb (fun tc => match snd tc with CAmbig => true | _ => false end) l then inl ESystemExit
-    else loop legacy rs l (init_ns c).
+    if existsb (fun tc => match snd tc with CAmbig => true | _ => false end) l then inr (init_ns c, true)
+    else inr (loop legacy rs l (init_ns c)).
 
 Definition parse_args (legacy : bool) (c : compiler) (argv : list string) : err + (list config * list string) :=
   match parse_ns legacy c argv with
   | inl e => inl e
-  | inr n => inr (configs_of c n, events_of c n)
+  | inr (n, partial) => inr (configs_of c n, events_of c n ++ (if partial then ["W:partial"] else []))
   end.
 
 (* the code before the repair: a non-overriding extend_match with a default list
@@ -485,7 +498,7 @@ Definition run_cmd (legacy : bool) (t : table) (argv0 : string) (argv : list str
   let c := compiler_of t st in
   let t' := if legacy then
               match st, parse_ns legacy c argv with
-              | SOk x, inr n => aset x (leak_defaults c n) t
+              | SOk x, inr (n, _) => aset x (leak_defaults c n) t
               | _, _ => t
               end
             else t in
